@@ -90,7 +90,7 @@ struct CallArgs {
     gc: &'static str,
 }
 
-const N_ENTRIES: usize = 118;
+const N_ENTRIES: usize = 122;
 
 /// Execute entry `e`. Returns the entry's name; may panic (=> caught by the caller).
 fn call(env: &Env, e: usize, x: &CallArgs, pick: usize) -> &'static str {
@@ -267,6 +267,31 @@ fn call(env: &Env, e: usize, x: &CallArgs, pick: usize) -> &'static str {
         // ---- slices obtained at guest level, then driven with guest-chosen arguments
         115 => e!("GuestMemory::get_slice -> subslice/offset/get_array_ref", gm.get_slice(ga, small(a)).map(|s| (s.subslice(b, c).map(|t| t.len()), s.offset(b).map(|t| t.len()), s.get_array_ref::<u16>(b, c).map(|t| t.len())))),
         116 => e!("GuestRegionMmap::as_volatile_slice -> write_obj/read at guest offset", GuestMemoryRegion::as_volatile_slice(gm.iter().next().unwrap()).map(|s| (s.write_obj::<u32>(1, a), s.read(&mut buf, b)))),
+        // ---- short HISTORIES on one map: a lookup, a guest-requested hot-unplug / hot-plug, lookups in
+        // the resulting map (state that a lookup leaves behind must not break the derived map)
+        117 => e!("history: lookup, unplug an exact region, lookups in the new map", {
+            let _ = (gm.find_region(ga), gm.read_obj::<u8>(ga));
+            let regs: Vec<(GuestAddress, u64)> = gm.iter().map(|r| (r.start_addr(), r.len())).collect();
+            let (s0, l0) = regs[a % regs.len()];
+            gm.remove_region(s0, l0).map(|(m2, _)| (m2.find_region(GuestAddress(x.g2)).is_some(), m2.find_region(ga).is_some(), m2.check_range(GuestAddress(x.g2), small(b)), m2.read_obj::<u8>(GuestAddress(x.g2)).is_ok(), m2.last_addr()))
+        }),
+        118 => e!("history: touch a region's last byte, unplug that region, lookups in the new map", {
+            let regs: Vec<(GuestAddress, u64)> = gm.iter().map(|r| (r.start_addr(), r.len())).collect();
+            let (s0, l0) = regs[a % regs.len()];
+            let _ = gm.read_obj::<u8>(GuestAddress(s0.0 + (l0 - 1)));
+            gm.remove_region(s0, l0).map(|(m2, _)| (m2.find_region(ga).is_some(), m2.read_obj::<u8>(GuestAddress(x.g2)).is_ok(), m2.get_slice(ga, small(b)).is_ok(), m2.num_regions(), gm.find_region(ga).is_some()))
+        }),
+        119 => e!("history: lookup, unplug with guest-chosen (base, size), lookups", {
+            let _ = gm.find_region(GuestAddress(x.g2));
+            match gm.remove_region(ga, x.g2) {
+                Ok((m2, r)) => (m2.find_region(ga).is_some(), m2.read_obj::<u8>(GuestAddress(x.g2)).is_ok(), r.len()),
+                Err(_) => (gm.find_region(ga).is_some(), gm.read_obj::<u8>(GuestAddress(x.g2)).is_ok(), 0),
+            }
+        }),
+        120 => e!("history: lookup, hot-plug at a guest-chosen base, lookups in the new map", {
+            let _ = gm.find_region(ga);
+            GuestRegionMmap::<AtomicBitmap>::from_range(GuestAddress(x.g2), 1 + small(b), None).ok().and_then(|r| gm.insert_region(std::sync::Arc::new(r)).ok()).map(|m2| (m2.find_region(ga).is_some(), m2.find_region(GuestAddress(x.g2)).is_some(), m2.read_obj::<u8>(ga).is_ok(), m2.num_regions()))
+        }),
         _ => e!("WriteVolatile for &mut [u8] / Vec<u8> direct", vs.subslice(a, small(b)).map(|s| { let mut arr = [0u8; 16]; let mut m = &mut arr[..]; let _ = m.write_volatile(&s); let mut v: Vec<u8> = vec![]; let _ = v.write_volatile(&s); let _ = v.write_all_volatile(&s); })),
     }
 }
